@@ -102,6 +102,7 @@ func checkC17(c *core.Ctx) {
 	var mu sync.Mutex
 	// first the small hand-kept family (a deadline then cuts only the tail of the big enumeration)
 	c17TypeGroups(c, sc, tiny, fc, foiPath)
+	c17IfShapes(c, sc, tiny, fc, foiPath)
 	for k := 0; k <= maxK; k++ {
 		if c.Expired() || c.TooManyViolations() {
 			c.NotExhaustive(fmt.Sprintf("k=%d not started", k))
